@@ -3,7 +3,7 @@ From Coq Require Import QArith.
 Close Scope Q_scope.
 From Coq Require Import ZArith Reals Lra Lia List Bool Arith Permutation Sorted Psatz.
 Import ListNotations.
-From PV Require Import Base.Num Base.RTac Model.LieGroup Model.Cloud.
+From PV Require Import Base.Num Model.LieGroup Model.Cloud.
 #[local] Remove Hints NumQ NumZ : typeclass_instances.
 
 (* ====================================================================== generic list facts *)
@@ -506,19 +506,26 @@ Proof.
 Qed.
 
 (* no radius: the model returns, for every point, the mean of the gathered selection *)
-Lemma knn_filter_none_eq d le_r (pts : cloudR) k :
+Lemma knn_means_eq d (pts : cloudR) k :
   (S k <= length pts)%nat ->
-  knn_filter_gen d le_r pts k None = Some (map (fun p => vmean (length p) (knn_sel d pts k p)) pts).
+  knn_means d pts k = Some (map (fun p => vmean (length p) (knn_sel d pts k p)) pts).
 Proof.
-  intros Hk. unfold knn_filter_gen.
+  intros Hk. unfold knn_means.
   destruct (Nat.ltb_spec (length pts) (S k)); [lia|].
-  assert (E : map fst (map (fun p : vecR => (p, map (d p) pts)) pts) = pts) by (rewrite map_map; apply map_id).
-  rewrite map_map. cbn [fst snd]. rewrite E.
   apply all_some_map. intros p _.
   rewrite (gather_spec []); [reflexivity|]. intros i Hi. eapply knn_sel_idx_lt; eauto.
 Qed.
+Lemma knn_filter_gen_none d le_r (pts : cloudR) k : knn_filter_gen d le_r pts k None = knn_means d pts k.
+Proof. unfold knn_filter_gen. destruct (knn_means d pts k); reflexivity. Qed.
+Lemma knn_filter_none_eq d le_r (pts : cloudR) k :
+  (S k <= length pts)%nat ->
+  knn_filter_gen d le_r pts k None = Some (map (fun p => vmean (length p) (knn_sel d pts k p)) pts).
+Proof. intros Hk. rewrite knn_filter_gen_none. now apply knn_means_eq. Qed.
 Lemma knn_filter_raises d le_r (pts : cloudR) k r : (length pts < S k)%nat -> knn_filter_gen d le_r pts k r = None.
-Proof. intros H. unfold knn_filter_gen. destruct (Nat.ltb_spec (length pts) (S k)); [reflexivity | lia]. Qed.
+Proof.
+  intros H. unfold knn_filter_gen, knn_means. destruct (Nat.ltb_spec (length pts) (S k)); [|lia].
+  destruct r; reflexivity.
+Qed.
 
 Lemma Forall2_map_self {A B} (P : A -> B -> Prop) (f : A -> B) l : (forall x, P x (f x)) -> Forall2 P l (map f l).
 Proof. intros H. induction l; cbn; constructor; auto. Qed.
@@ -577,32 +584,33 @@ Proof.
     + intros p. apply vmean_perm, knn_nbhd_perm, HP.
 Qed.
 
-(* ---- the radius branch.  As coded it indexes the FILTERED cloud with indices of the unfiltered
-   one: refuted on the faithful model (evaluated over Q; the same input replayed on /repo raises) *)
+(* ---- the radius branch.  HISTORY: before fix c6053fe it indexed the FILTERED cloud with indices of
+   the unfiltered one: refuted on the old model (evaluated over Q; the same input raised on /repo);
+   the current model returns what the property asks for *)
 Lemma knn_filter_radius_refuted :
   exists (pts : list (list Q)) (k : nat) (r : Q),
-    knn_filter (NF:=NumQ) L1 1 pts k (Some r) = None /\
-    knn_filter_fixed (NF:=NumQ) L1 1 pts k (Some r) = Some [[Qmake 1 2]; [Qmake 1 2]].
+    knn_filter_old (NF:=NumQ) L1 1 pts k (Some r) = None /\
+    knn_filter (NF:=NumQ) L1 1 pts k (Some r) = Some [[Qmake 1 2]; [Qmake 1 2]].
 Proof. exists [[100%Q]; [0%Q]; [1%Q]], 1%nat, 5%Q. split; vm_compute; reflexivity. Qed.
-(* when every retained point precedes every removed one the indices coincide: the docstring cloud *)
+(* when every retained point preceded every removed one the indices coincided: the docstring cloud *)
 Example knn_filter_radius_docstring :
-  knn_filter (NF:=NumQ) L2 3 [[0;0;0];[1;0;0];[0;1;0];[0;1;1];[10;1;1];[10;1;10]]%Q 2 (Some 5%Q)
-  = knn_filter_fixed (NF:=NumQ) L2 3 [[0;0;0];[1;0;0];[0;1;0];[0;1;1];[10;1;1];[10;1;10]]%Q 2 (Some 5%Q).
+  knn_filter_old (NF:=NumQ) L2 3 [[0;0;0];[1;0;0];[0;1;0];[0;1;1];[10;1;1];[10;1;10]]%Q 2 (Some 5%Q)
+  = knn_filter (NF:=NumQ) L2 3 [[0;0;0];[1;0;0];[0;1;0];[0;1;1];[10;1;1];[10;1;10]]%Q 2 (Some 5%Q).
 Proof. vm_compute. reflexivity. Qed.
 
 Lemma countZ_map {A B} (f : B -> bool) (g : A -> B) l : countZ f (map g l) = countZ (fun x => f (g x)) l.
 Proof. unfold countZ. induction l; cbn; auto. now rewrite IHl. Qed.
 
-(* the repaired radius branch satisfies the property: the retained points are those with at least
-   k others within the radius (nbr_keep_spec), each replaced by the mean of itself and its k nearest *)
-Lemma knn_filter_fixed_spec o pd (pts : cloudR) k r :
+(* the radius branch: the retained points are those with at least k others within the radius
+   (nbr_keep_spec), each replaced by the mean of itself and its k nearest *)
+Lemma knn_filter_radius_spec o pd (pts : cloudR) k r :
   (S k <= length pts)%nat -> (forall p, In p pts -> NoDup (map (pdist o pd p) pts)) ->
-  knn_filter_fixed o pd pts k (Some r) =
+  knn_filter o pd pts k (Some r) =
   Some (map (fun p => vmean (length p) (knn_nbhd (pdist o pd) k pts p))
             (filter (nbr_keep o pd pts (Z.of_nat k) r) pts)).
 Proof.
-  intros Hk Hnd. unfold knn_filter_fixed, knn_filter_fixed_gen.
-  rewrite knn_filter_spec by auto. f_equal.
+  intros Hk Hnd. unfold knn_filter, knn_filter_gen.
+  rewrite <- (knn_filter_gen_none (pdist o pd) (meas_le o)), knn_filter_spec by auto. f_equal.
   rewrite (map_ext _ (nbr_keep o pd pts (Z.of_nat k) r)).
   - apply mask_select_map2.
   - intros p. unfold nbr_keep, nbr_count. now rewrite countZ_map.
@@ -903,20 +911,23 @@ Proof.
   clear. revert j. induction D; intros [|j]; cbn; auto.
 Qed.
 
-(* the random=True branch as coded (two squeeze() calls): refuted for a single occupied voxel *)
+(* HISTORY: the random=True branch before fix 104c370 (two squeeze() calls), refuted for a single
+   occupied voxel; the current model returns the (1 x D) result *)
 Lemma voxel_random_single_refuted :
   (exists (pts : list (list Q)) (voxel : list Q), length pts = 1%nat /\
-      voxel_filter_random (NF:=NumQ) unique_sort argsort_ins [0%nat] pts voxel = VRaise) /\
+      voxel_filter_random_old (NF:=NumQ) unique_sort argsort_ins [0%nat] pts voxel = VRaise /\
+      voxel_filter_random (NF:=NumQ) unique_sort argsort_ins [0%nat] pts voxel = Some pts) /\
   (exists (pts : list (list Q)) (voxel : list Q) r, length pts = 2%nat /\
-      voxel_filter_random (NF:=NumQ) unique_sort argsort_ins [1%nat] pts voxel = VRow r).
+      voxel_filter_random_old (NF:=NumQ) unique_sort argsort_ins [1%nat] pts voxel = VRow r /\
+      voxel_filter_random (NF:=NumQ) unique_sort argsort_ins [1%nat] pts voxel = Some [r]).
 Proof.
   split.
-  - exists [[1%Q; 2%Q; 3%Q]], [1%Q; 1%Q; 1%Q]. split; [reflexivity | vm_compute; reflexivity].
-  - exists [[1%Q; 2%Q]; [2%Q; 3%Q]], [5%Q], [2%Q; 3%Q]. split; [reflexivity | vm_compute; reflexivity].
+  - exists [[1%Q; 2%Q; 3%Q]], [1%Q; 1%Q; 1%Q]. split; [reflexivity | split; vm_compute; reflexivity].
+  - exists [[1%Q; 2%Q]; [2%Q; 3%Q]], [5%Q], [2%Q; 3%Q]. split; [reflexivity | split; vm_compute; reflexivity].
 Qed.
 Example voxel_random_example :
   voxel_filter_random (NF:=NumQ) unique_sort argsort_ins [1%nat; 0%nat; 0%nat]
-    [[1;2];[4;5];[7;8];[10;11];[13;14]]%Q [5%Q] = VRows [[4;5];[7;8];[13;14]]%Q.
+    [[1;2];[4;5];[7;8];[10;11];[13;14]]%Q [5%Q] = Some [[4;5];[7;8];[13;14]]%Q.
 Proof. vm_compute. reflexivity. Qed.
 
 (* ====================================================================== random_filter *)
@@ -1076,6 +1087,15 @@ Qed.
 Lemma sumsq_nonneg (l : vecR) : 0 <= sumF (map (fun x => x * x)%num l).
 Proof. unfold sumF. induction l; cbn in *; [lra | nra]. Qed.
 
+Lemma sumabs_zero (l : vecR) : sumF (map absF l) = 0 -> Forall (fun x => x = 0) l.
+Proof.
+  unfold sumF. induction l as [|x l IH]; cbn [map fold_right]; intros H; constructor.
+  - assert (0 <= fold_right add zero (map absF l)) by (apply (sumF_nonneg (map absF l)); rewrite Forall_map; apply Forall_forall; intros; rewrite absF_R; apply Rabs_pos).
+    rewrite absF_R in H. cbn in *. pose proof (Rabs_pos x). destruct (Req_dec x 0); auto.
+    pose proof (Rabs_pos_lt x H2). lra.
+  - apply IH. assert (0 <= fold_right add zero (map absF l)) by (apply (sumF_nonneg (map absF l)); rewrite Forall_map; apply Forall_forall; intros; rewrite absF_R; apply Rabs_pos).
+    rewrite absF_R in H. cbn in *. pose proof (Rabs_pos x). lra.
+Qed.
 Lemma reproj_zero_of_match tiny K T (p : vecR) :
   let px := point2pixel1 tiny K T p in
   Forall (fun x => x = 0) (reproj_none1 tiny K T p px) /\ reproj_sum1 tiny K T p px = 0 /\
@@ -1084,29 +1104,308 @@ Proof.
   intros px. unfold reproj_norm1, reproj_normsq1, reproj_sum1, reproj_none1. fold px. rewrite vsubl_self.
   split; [|split].
   - rewrite Forall_map. apply Forall_forall. auto.
-  - unfold sumF. induction px; cbn in *; lra.
+  - rewrite map_map. unfold sumF. induction px; cbn [map fold_right]; [reflexivity|].
+    rewrite IHpx, absF_R, Rabs_R0. cbn. lra.
   - cbn [tsqrt TransR]. rewrite map_map.
     replace (sumF (map (fun _ : R => (0 * 0)%num) px)) with 0; [apply sqrt_0|].
     unfold sumF. induction px; cbn in *; lra.
 Qed.
 Lemma reproj_match_of_zero tiny K T (p px : vecR) : length px = length (point2pixel1 tiny K T p) ->
   (Forall (fun x => x = 0) (reproj_none1 tiny K T p px) -> px = point2pixel1 tiny K T p) /\
+  (reproj_sum1 tiny K T p px = 0 -> px = point2pixel1 tiny K T p) /\
   (reproj_norm1 tiny K T p px = 0 -> px = point2pixel1 tiny K T p).
 Proof.
-  intros Hl. split.
+  intros Hl. split; [|split].
   - intros H. apply vsubl_zero; auto.
+  - intros H. unfold reproj_sum1 in H. apply sumabs_zero in H. apply vsubl_zero; auto.
   - intros H. unfold reproj_norm1, reproj_normsq1 in H. cbn [tsqrt TransR] in H.
     apply sqrt_eq_0 in H; [|apply sumsq_nonneg]. apply sumsq_zero in H. apply vsubl_zero; auto.
 Qed.
-(* reduction='sum' is a signed sum, not the L1 norm the docstring announces: it vanishes on
-   pixels that do not match *)
+(* HISTORY: before fix 9117fdb reduction='sum' was a signed sum, not the documented L1 norm: it
+   vanished on pixels that do not match *)
 Lemma reproj_sum_refuted tiny : 0 < tiny <= 1 ->
-  exists (K : cloudR) (p px : vecR), px <> point2pixel1 tiny K None p /\ reproj_sum1 tiny K None p px = 0.
+  exists (K : cloudR) (p px : vecR), px <> point2pixel1 tiny K None p /\ reproj_sum1_old tiny K None p px = 0.
 Proof.
   intros Ht. exists (pinhole 1 1 0 0), [0; 0; 1], [1; -1].
   assert (E : point2pixel1 tiny (pinhole 1 1 0 0) None [0; 0; 1] = [0; 0]).
   { rewrite point2pixel1_pinhole by (rewrite Rabs_R1; lra). f_equal; [|f_equal]; field. }
-  unfold reproj_sum1, reproj_none1. rewrite E. split.
+  unfold reproj_sum1_old, reproj_none1. rewrite E. split.
   - intros H. inversion H. lra.
   - unfold sumF, vsubl. cbn. lra.
+Qed.
+
+(* batched *)
+Lemma reprojerr_zero tiny K T (pts : cloudR) :
+  let pix := point2pixel tiny K T pts in
+  Forall (Forall (fun x => x = 0)) (reprojerr_none tiny K T pts pix) /\
+  Forall (fun x => x = 0) (reprojerr_sum tiny K T pts pix) /\
+  Forall (fun x => x = 0) (reprojerr_norm tiny K T pts pix).
+Proof.
+  cbv zeta. unfold reprojerr_none, reprojerr_sum, reprojerr_norm, point2pixel.
+  induction pts as [|p pts [IH1 [IH2 IH3]]]; cbn [map map2]; [repeat split; constructor|].
+  destruct (reproj_zero_of_match tiny K T p) as [H1 [H2 H3]].
+  repeat split; constructor; auto.
+Qed.
+Lemma reprojerr_zero_only tiny K T (pts pix : cloudR) :
+  Forall2 (fun p px => length px = length (point2pixel1 tiny K T p)) pts pix ->
+  (Forall (Forall (fun x => x = 0)) (reprojerr_none tiny K T pts pix) -> pix = point2pixel tiny K T pts) /\
+  (Forall (fun x => x = 0) (reprojerr_sum tiny K T pts pix) -> pix = point2pixel tiny K T pts) /\
+  (Forall (fun x => x = 0) (reprojerr_norm tiny K T pts pix) -> pix = point2pixel tiny K T pts).
+Proof.
+  unfold reprojerr_none, reprojerr_sum, reprojerr_norm, point2pixel.
+  induction 1 as [|p px pts pix Hl _ [IH1 [IH2 IH3]]]; cbn [map map2]; [repeat split; reflexivity|].
+  destruct (reproj_match_of_zero tiny K T p px Hl) as [G1 [G2 G3]].
+  repeat split; intros Hz; inversion Hz; subst; f_equal; auto.
+Qed.
+Lemma point2pixel_extr tiny K X (pts : cloudR) :
+  point2pixel tiny K (Some X) pts = point2pixel tiny K None (map (extr_act (Some X)) pts).
+Proof. unfold point2pixel. rewrite map_map. reflexivity. Qed.
+
+(* ====================================================================== statements on the true norm *)
+Lemma knn_filter_spec_R o pd (pts : cloudR) k :
+  (S k <= length pts)%nat -> (forall p, In p pts -> NoDup (map (Rpdist o pd p) pts)) ->
+  knn_filter o pd pts k None = Some (map (fun p => vmean (length p) (knn_nbhd (Rpdist o pd) k pts p)) pts).
+Proof.
+  intros Hk Hnd. unfold knn_filter. rewrite knn_filter_spec; auto.
+  - f_equal. apply map_ext. intros p. now rewrite knn_nbhd_Rpdist.
+  - intros p Hp. apply nodup_Rpdist. auto.
+Qed.
+Lemma knn_filter_radius_spec_R o pd (pts : cloudR) k r :
+  (S k <= length pts)%nat -> (forall p, In p pts -> NoDup (map (Rpdist o pd p) pts)) ->
+  knn_filter o pd pts k (Some r) =
+  Some (map (fun p => vmean (length p) (knn_nbhd (Rpdist o pd) k pts p))
+            (filter (nbr_keep o pd pts (Z.of_nat k) r) pts)).
+Proof.
+  intros Hk Hnd. rewrite knn_filter_radius_spec; auto.
+  - f_equal. apply map_ext. intros p. now rewrite knn_nbhd_Rpdist.
+  - intros p Hp. apply nodup_Rpdist. auto.
+Qed.
+Lemma knn_filter_perm_R o pd (pts pts' : cloudR) k :
+  (S k <= length pts)%nat -> (forall p, In p pts -> NoDup (map (Rpdist o pd p) pts)) -> Permutation pts pts' ->
+  exists out out', knn_filter o pd pts k None = Some out /\
+                   knn_filter o pd pts' k None = Some out' /\ Permutation out out'.
+Proof.
+  intros Hk Hnd HP. apply knn_filter_perm; auto. intros p Hp. apply nodup_Rpdist. auto.
+Qed.
+Lemma knn_nbhd_props o pd (pts : cloudR) k p :
+  (S k <= length pts)%nat -> In p pts -> NoDup (map (Rpdist o pd p) pts) ->
+  length (knn_nbhd (Rpdist o pd) k pts p) = S k /\ In p (knn_nbhd (Rpdist o pd) k pts p) /\
+  (forall q q', In q (knn_nbhd (Rpdist o pd) k pts p) -> In q' pts -> ~ In q' (knn_nbhd (Rpdist o pd) k pts p) ->
+                Rpdist o pd p q < Rpdist o pd p q').
+Proof.
+  intros Hk Hp Hnd. split; [now apply knn_nbhd_length|]. split.
+  - apply knn_nbhd_self; auto. intros q. unfold Rpdist, Rdist.
+    destruct o; rewrite dmeas_self; try apply dmeas_nonneg. rewrite sqrt_0. apply sqrt_pos.
+  - intros q q' Hq Hq' Hn. unfold knn_nbhd in *. apply filter_In in Hq. destruct Hq as [_ Hq].
+    apply Nat.ltb_lt in Hq.
+    assert (Hr : (S k <= rank (Rpdist o pd p) pts q')%nat).
+    { destruct (Nat.le_gt_cases (S k) (rank (Rpdist o pd p) pts q')); auto.
+      exfalso. apply Hn. apply filter_In. split; auto. now apply Nat.ltb_lt. }
+    destruct (Rlt_le_dec (Rpdist o pd p q) (Rpdist o pd p q')) as [|Hle]; auto.
+    exfalso. assert (rank (Rpdist o pd p) pts q' <= rank (Rpdist o pd p) pts q)%nat; [|lia].
+    unfold rank. clear - Hle. induction pts as [|y pts IH]; cbn; auto.
+    destruct (Rltb (Rpdist o pd p y) (Rpdist o pd p q')) eqn:E1.
+    + apply Rltb_true in E1.
+      replace (Rltb (Rpdist o pd p y) (Rpdist o pd p q)) with true by (symmetry; apply Rltb_true; lra).
+      cbn. lia.
+    + destruct (Rltb (Rpdist o pd p y) (Rpdist o pd p q)); cbn; lia.
+Qed.
+
+(* knn values do not depend on the order of the neighbour cloud *)
+Lemma sorted_perm_eq (l l' : vecR) : StronglySorted Rle l -> StronglySorted Rle l' -> Permutation l l' -> l = l'.
+Proof.
+  revert l'. induction l as [|a l IH]; intros l' H1 H2 HP.
+  - apply Permutation_nil in HP. now subst.
+  - destruct l' as [|b l']; [apply Permutation_sym, Permutation_nil in HP; discriminate|].
+    inversion H1 as [|? ? Hs1 Ha]; inversion H2 as [|? ? Hs2 Hb]; subst.
+    rewrite Forall_forall in Ha, Hb.
+    assert (a = b).
+    { assert (In a (b :: l')) as [->|Hin] by (eapply Permutation_in; [exact HP | now left]); auto.
+      assert (In b (a :: l)) as [->|Hin'] by (eapply Permutation_in; [apply Permutation_sym, HP | now left]); auto.
+      specialize (Ha b Hin'). specialize (Hb a Hin). lra. }
+    subst b. f_equal. apply IH; auto. eapply Permutation_cons_inv; eauto.
+Qed.
+Lemma sort_row_values_perm (row row' : vecR) : Permutation row row' ->
+  map fst (sort_row row) = map fst (sort_row row').
+Proof.
+  intros HP.
+  assert (S : forall r : vecR, StronglySorted Rle (map fst (sort_row r))).
+  { intros r. eapply StronglySorted_map; [|apply (isort_sorted le_fst); [apply le_fst_total | apply le_fst_trans]].
+    intros a b. unfold le_fst; cbn. now rewrite Rleb_true. }
+  assert (P : forall r : vecR, Permutation (map fst (sort_row r)) r).
+  { intros r. eapply perm_trans; [apply Permutation_map, sort_row_perm|].
+    unfold indexed. rewrite map_fst_combine; auto. now rewrite seq_length. }
+  apply sorted_perm_eq; auto.
+  eapply perm_trans; [apply P|]. eapply perm_trans; [exact HP | apply Permutation_sym, P].
+Qed.
+Lemma knn_values_perm (d : vecR -> vecR -> R) (ref nbr nbr' : cloudR) k : Permutation nbr nbr' ->
+  option_map (map (map fst)) (knn_gen d ref nbr k) = option_map (map (map fst)) (knn_gen d ref nbr' k).
+Proof.
+  intros HP. unfold knn_gen. induction ref as [|r ref IH]; cbn [map all_some]; auto.
+  unfold topk at 1 3. rewrite !map_length, <- (Permutation_length HP).
+  destruct (Nat.ltb (length nbr) k); auto.
+  destruct (all_some (map (fun r0 => topk k (map (d r0) nbr)) ref)),
+           (all_some (map (fun r0 => topk k (map (d r0) nbr')) ref)); cbn in *; try discriminate; auto.
+  inversion IH. f_equal. cbn [map]. f_equal; auto.
+  rewrite <- !firstn_map. f_equal. apply sort_row_values_perm. now apply Permutation_map.
+Qed.
+
+(* the no-tie hypothesis is satisfiable *)
+Example no_ties_example :
+  forall p, In p [[0]; [1]; [3]; [7]] -> NoDup (map (Rpdist L1 1 p) [[0]; [1]; [3]; [7]]).
+Proof.
+  assert (A : forall a b : R, Rpdist L1 1 [a] [b] = Rabs (a - b)).
+  { intros. unfold Rpdist, Rdist, dmeas, vsubl, sumF. cbn. rewrite absF_R. apply Rplus_0_r. }
+  intros p [<-|[<-|[<-|[<-|[]]]]]; cbn [map]; rewrite !A;
+    repeat (constructor; [cbn [In]; intros H; repeat destruct H as [H|H]; try contradiction;
+                          revert H; unfold Rabs; repeat destruct Rcase_abs; lra|]); constructor.
+Qed.
+
+
+(* ====================================================================== voxel_filter(random=True) *)
+Local Open Scope nat_scope.
+Definition argsort_contract (argsort : list nat -> list nat) : Prop :=
+  forall l, Permutation (argsort l) (seq 0 (length l)) /\
+            StronglySorted le (map (fun i => nth i l 0%nat) (argsort l)).
+
+(* in a sorted list the block of positions [#(<k), #(<k) + #(=k)) holds the value k *)
+Lemma sorted_block : forall (L : list nat) k i, StronglySorted le L ->
+  (length (filter (fun x => Nat.ltb x k) L) <= i < length (filter (fun x => Nat.ltb x k) L) + length (filter (Nat.eqb k) L))%nat ->
+  nth i L 0%nat = k.
+Proof.
+  induction L as [|a t IH]; intros k i Hs Hi; [cbn in Hi; lia|].
+  inversion Hs as [|? ? Hst Ha]; subst. rewrite Forall_forall in Ha.
+  destruct (Nat.lt_trichotomy a k) as [Hlt | [-> | Hgt]].
+  - cbn [filter] in Hi. replace (Nat.ltb a k) with true in Hi by (symmetry; now apply Nat.ltb_lt).
+    replace (Nat.eqb k a) with false in Hi by (symmetry; apply Nat.eqb_neq; lia).
+    cbn [length] in Hi. destruct i as [|i]; [lia|]. cbn. apply IH; auto. lia.
+  - cbn [filter] in Hi. rewrite Nat.ltb_irrefl, Nat.eqb_refl in Hi.
+    assert (E : filter (fun x => Nat.ltb x k) t = []).
+    { apply filter_none. intros x Hx. apply Nat.ltb_ge. now apply Ha. }
+    rewrite E in *. cbn [length] in Hi. destruct i as [|i]; [reflexivity|]. cbn. apply IH; auto. rewrite E. cbn. lia.
+  - exfalso. cbn [filter] in Hi. replace (Nat.ltb a k) with false in Hi by (symmetry; apply Nat.ltb_ge; lia).
+    replace (Nat.eqb k a) with false in Hi by (symmetry; apply Nat.eqb_neq; lia).
+    rewrite (filter_none (fun x => Nat.ltb x k)) in Hi by (intros x Hx; apply Nat.ltb_ge; specialize (Ha x Hx); lia).
+    rewrite (filter_none (Nat.eqb k)) in Hi by (intros x Hx; apply Nat.eqb_neq; specialize (Ha x Hx); lia).
+    cbn in Hi. lia.
+Qed.
+
+Lemma count_lt_S (l : list nat) k :
+  length (filter (fun x => Nat.ltb x (S k)) l) = (length (filter (fun x => Nat.ltb x k) l) + length (filter (Nat.eqb k) l))%nat.
+Proof.
+  induction l as [|a l IH]; cbn [filter]; auto.
+  destruct (Nat.ltb_spec a (S k)), (Nat.ltb_spec a k), (Nat.eqb_spec k a); cbn [length]; try lia.
+Qed.
+Lemma offsets_nth : forall counts a k, (k < length counts)%nat ->
+  nth k (offsets a counts) 0%nat = (a + fold_right Nat.add 0 (firstn k counts))%nat.
+Proof.
+  induction counts as [|c t IH]; intros a k Hk; cbn in Hk; [lia|].
+  destruct k as [|k]; cbn; [lia|]. rewrite IH by lia. lia.
+Qed.
+Lemma offsets_length : forall counts a, length (offsets a counts) = length counts.
+Proof. induction counts; intros; cbn; auto. Qed.
+Lemma sum_counts (l : list nat) k :
+  fold_right Nat.add 0 (map (fun j => length (filter (Nat.eqb j) l)) (seq 0 k)) = length (filter (fun x => Nat.ltb x k) l).
+Proof.
+  induction k as [|k IH].
+  - cbn. rewrite filter_none; auto.
+  - rewrite seq_S, map_app. cbn [map Nat.add]. rewrite count_lt_S, <- IH.
+    generalize (map (fun j => length (filter (Nat.eqb j) l)) (seq 0 k)). intros L. induction L; cbn; lia.
+Qed.
+Lemma filter_length_le {A} (f : A -> bool) l : (length (filter f l) <= length l)%nat.
+Proof. induction l; cbn; auto. destruct (f a); cbn; lia. Qed.
+Lemma firstn_map_seq {B} (f : nat -> B) M k : (k <= M)%nat -> firstn k (map f (seq 0 M)) = map f (seq 0 k).
+Proof.
+  intros H. rewrite firstn_map. f_equal. replace M with (k + (M - k))%nat by lia.
+  rewrite seq_app, firstn_app, seq_length, Nat.sub_diag. cbn [firstn]. rewrite app_nil_r.
+  apply firstn_all2. now rewrite seq_length.
+Qed.
+
+(* one row per occupied voxel, row k a member of voxel k -- every non-empty cloud, any unique /
+   argsort satisfying their contracts and any draws below the voxel counts *)
+Lemma nth_map' {A B} (f : A -> B) (d : A) (d' : B) l n : n < length l -> nth n (map f l) d' = f (nth n l d).
+Proof. intros H. rewrite (nth_indep _ d' (f d)) by (now rewrite map_length). apply map_nth. Qed.
+Lemma voxel_filter_random_spec unique argsort (Hu : uniq_contract unique) (Ha : argsort_contract argsort)
+    (draws : list nat) (pts : cloudR) (voxel : vecR) :
+  Forall (fun v => v <> 0%R) voxel -> pts <> [] ->
+  let keys := fst (unique (map (vox_of pts voxel) pts)) in
+  let inv := snd (unique (map (vox_of pts voxel) pts)) in
+  length draws = length keys ->
+  (forall k, (k < length keys)%nat -> (nth k draws 0 < length (filter (Nat.eqb k) inv))%nat) ->
+  exists sel, voxel_filter_random unique argsort draws pts voxel = Some sel /\ length sel = length keys /\
+              forall k, (k < length keys)%nat -> In (nth k sel []) (vox_members pts voxel (nth k keys [])).
+Proof.
+  intros Hv Hne keys inv Hdl Hd.
+  destruct (Hu (map (vox_of pts voxel) pts)) as [Hs [Hin Hinv]]. fold keys in Hs, Hin, Hinv. fold inv in Hinv.
+  assert (Hlen : length inv = length pts) by (apply Forall2_len in Hinv; now rewrite map_length in Hinv).
+  assert (Hinvlt : forall i, (i < length pts)%nat ->
+                     nth_error keys (nth i inv 0%nat) = Some (vox_of pts voxel (nth i pts []))).
+  { clear - Hinv. revert Hinv. generalize (vox_of pts voxel) as g. generalize inv as iv. generalize pts as ps.
+    induction ps as [|p ps IH]; intros iv g H i Hi; [cbn in Hi; lia|].
+    destruct iv as [|j iv]; inversion H; subst.
+    destruct i as [|i]; cbn; auto. apply IH; auto. cbn in Hi. lia. }
+  destruct (Ha inv) as [HsP HsS]. set (s := argsort inv) in *.
+  set (counts := map (fun k => length (filter (Nat.eqb k) inv)) (seq 0 (length keys))).
+  set (L := map (fun i => nth i inv 0%nat) s) in *.
+  assert (HLP : Permutation L inv).
+  { unfold L. eapply perm_trans; [apply Permutation_map, HsP|]. now rewrite map_nth_seq. }
+  assert (Hslt : forall i, In i s -> (i < length pts)%nat).
+  { intros i Hi. apply (Permutation_in _ HsP) in Hi. apply in_seq in Hi. lia. }
+  assert (Hsl : length s = length pts) by (rewrite (Permutation_length HsP), seq_length; auto).
+  set (selidx := map2 Nat.add draws (offsets 0 counts)).
+  assert (Hcl : length counts = length keys) by (unfold counts; now rewrite map_length, seq_length).
+  assert (Hsil : length selidx = length keys) by (unfold selidx; rewrite map2_length, offsets_length; lia).
+  assert (Hsel : forall k, (k < length keys)%nat ->
+            (length (filter (fun x => Nat.ltb x k) L) <= nth k selidx 0 <
+             length (filter (fun x => Nat.ltb x k) L) + length (filter (Nat.eqb k) L))%nat).
+  { intros k Hk. unfold selidx.
+    rewrite (nth_map2 _ 0%nat 0%nat 0%nat) by (rewrite ?offsets_length; lia).
+    rewrite offsets_nth by lia. unfold counts. rewrite firstn_map_seq by lia. rewrite sum_counts.
+    rewrite !(filter_perm_length _ _ _ HLP). specialize (Hd k Hk). lia. }
+  assert (Hsellt : forall i, In i selidx -> (i < length s)%nat).
+  { intros i Hi. destruct (In_nth _ _ 0%nat Hi) as [k [Hk <-]]. rewrite Hsil in Hk.
+    specialize (Hsel k Hk). rewrite <- count_lt_S in Hsel.
+    pose proof (filter_length_le (fun x => Nat.ltb x (S k)) L) as Hle.
+    unfold L in Hle at 2. rewrite map_length in Hle. lia. }
+  exists (map (fun j => nth j (map (fun i => nth i pts []) s) []) selidx).
+  split; [|split].
+  - unfold voxel_filter_random. rewrite (voxel_ok_true pts voxel Hne Hv). cbn [negb].
+    change (vox_keys_of pts voxel) with (map (vox_of pts voxel) pts).
+    destruct (unique (map (vox_of pts voxel) pts)) as [ks iv] eqn:E. cbn [fst snd] in *. subst keys inv.
+    fold s. rewrite (gather_spec [] pts s Hslt). fold counts. fold selidx.
+    now rewrite (gather_spec []) by (intros i Hi; rewrite map_length; auto).
+  - now rewrite map_length.
+  - intros k Hk.
+    rewrite (nth_map' _ 0%nat) by lia.
+    set (j := nth k selidx 0%nat).
+    assert (Hj : (j < length s)%nat) by (apply Hsellt, nth_In; lia).
+    rewrite (nth_map' _ 0%nat) by auto.
+    set (i := nth j s 0%nat).
+    assert (Hi : (i < length pts)%nat) by (apply Hslt, nth_In; auto).
+    assert (Hval : nth i inv 0%nat = k).
+    { pose proof (sorted_block L k j HsS (Hsel k Hk)) as HB. unfold L in HB.
+      now rewrite (nth_map' _ 0%nat) in HB by auto. }
+    unfold vox_members. apply filter_In. split; [now apply nth_In|].
+    apply lZ_eqb_true. specialize (Hinvlt i Hi). rewrite Hval in Hinvlt.
+    rewrite (nth_error_nth' keys [] Hk) in Hinvlt. congruence.
+Qed.
+
+(* the executable argsort satisfies its contract *)
+Lemma argsort_ins_contract : argsort_contract argsort_ins.
+Proof.
+  intros l. unfold argsort_ins.
+  set (le2 := fun a b : nat * nat => Nat.leb (fst a) (fst b)).
+  set (ix := combine l (seq 0 (length l))).
+  assert (HP : Permutation (isort le2 ix) ix) by apply isort_perm.
+  assert (HS : StronglySorted (fun a b => le2 a b = true) (isort le2 ix)).
+  { apply isort_sorted; unfold le2; intros.
+    - destruct (Nat.leb_spec (fst a) (fst b)), (Nat.leb_spec (fst b) (fst a)); auto; lia.
+    - apply Nat.leb_le in H, H0. apply Nat.leb_le. lia. }
+  split.
+  - eapply perm_trans; [apply Permutation_map, HP|]. unfold ix. rewrite map_snd_combine; auto. now rewrite seq_length.
+  - rewrite map_map.
+    rewrite (map_ext_in _ fst).
+    + eapply StronglySorted_map; [|exact HS]. intros a b. unfold le2. apply Nat.leb_le.
+    + intros [v j] Hin. cbn. apply (Permutation_in _ HP) in Hin. unfold ix in Hin.
+      apply (In_combine_seq 0%nat) in Hin. rewrite Nat.sub_0_r in Hin. symmetry. tauto.
 Qed.
